@@ -779,6 +779,11 @@ func (ex *Exec) eval(fr *frame, v ssa.Value) Value {
 		a := ex.get(fr, x.X)
 		switch x.Op {
 		case token.MUL:
+			if ex.sh.lockCheck && ex.locks != nil {
+				if _, isStruct := x.Type().Underlying().(*types.Struct); isStruct {
+					ex.copyOfHeldLock(a.(Ptr))
+				}
+			}
 			if ex.sh.raceCheck {
 				lp := a.(Ptr)
 				ex.raceAccess(lp.obj, lp.path, false, false, x.Pos())
